@@ -116,7 +116,7 @@ def sSubstClose : Bytes := [41, 34]                                          -- 
 /-- reading ` -d "$(printf FMT)"` after the joined arguments -/
 theorem run_tail_subst (hex : Bool) (args : List Bytes) (flag : Bytes) (w : Word)
     (hflag : ∀ acc, steps hex ⟨.normal, none, acc, none⟩ flag = some ⟨.normal, some w, acc, none⟩)
-    (fmt out : Bytes) (hp : printfFmt hex fmt = some out) :
+    (fmt out : Bytes) (hp : printfFmt hex fmt = some out) (hdash : fmt.head? ≠ some 45) :
     ∃ s', steps hex St.init (joinSp (args.map quote) ++ ([32] ++ flag ++ [32]) ++
         (sSubstOpen ++ quote fmt ++ sSubstClose)) = some s' ∧
       s'.mode = .normal ∧ s'.frame = none ∧
@@ -147,7 +147,7 @@ theorem run_tail_subst (hex : Bool) (args : List Bytes) (flag : Bytes) (w : Word
   rw [steps_quote hex fmt _ rfl rfl]
   simp only [Option.bind_some]
   refine ⟨⟨.normal, some ⟨stripNl out, false⟩, A, none⟩, ?_, rfl, rfl, by simp [finish]⟩
-  simp [sSubstClose, steps, step, finish, sPrintf, hp, Word.append]
+  simp [sSubstClose, steps, step, finish, sPrintf, hp, Word.append, hdash]
 
 theorem flag_d (hex : Bool) : ∀ acc, steps hex ⟨.normal, none, acc, none⟩ [45, 100] =
     some ⟨.normal, some ⟨[45, 100], false⟩, acc, none⟩ := by
@@ -168,6 +168,50 @@ theorem stripNl_of_last (t : Bytes) (h : t.getLast? ≠ some 10) : stripNl t = t
     have : x ≠ 10 := by intro hx'; subst hx'; exact h hx
     simp [List.dropWhile, this]
     rw [← List.reverse_cons, ← hr]; simp
+
+theorem escText_head (t : Bytes) : (escText t).head? ≠ some 45 := by
+  cases t with
+  | nil => simp [escText]
+  | cons c r =>
+    unfold escText
+    by_cases hc : c = 45
+    · simp [hc]
+    · simp only [hc, if_false, List.flatMap_cons]
+      unfold escByte
+      by_cases h1 : c.toNat < 32
+      · simp [h1]
+      · by_cases h2 : c = 92
+        · subst h2; simp
+        · by_cases h3 : c = 37
+          · subst h3; simp
+          · simp [h1, h2, h3, hc]
+
+theorem printf_escText_hex (t : Bytes) : printfFmt true (escText t) = some t := by
+  cases t with
+  | nil => simp [escText, printfFmt, pfGo]
+  | cons c r =>
+    unfold escText
+    by_cases hc : c = 45
+    · subst hc
+      have := printf_esc_hex r
+      unfold printfFmt at this ⊢
+      simp [pfGo, pfStep, this]
+    · simp only [hc, if_false]
+      exact printf_esc_hex (c :: r)
+
+/-- what a printf without `\x` makes of the whole text -/
+theorem printf_escText_nohex (t : Bytes) : printfFmt false (escText t) = some (t.flatMap dashByte) := by
+  cases t with
+  | nil => simp [escText, printfFmt, pfGo]
+  | cons c r =>
+    unfold escText
+    by_cases hc : c = 45
+    · subst hc
+      have := printf_esc_nohex r
+      unfold printfFmt at this ⊢
+      simp [pfGo, pfStep, this, dashByte]
+    · simp only [hc, if_false]
+      exact printf_esc_nohex (c :: r)
 
 end MitmVerif.Lemmas.C48
 
